@@ -10,6 +10,20 @@ TB = ('Trusted: Coq 8.16.1 kernel; extraction (ExtrOcamlBasic, ExtrOcamlString) 
       'not verified. No axioms: every property theorem is "Closed under the global context" (checked each run).')
 
 CHECKS = {
+ 'C01': dict(
+    text='Theorem vcd_fidelity (Coq, all documents/layouts, no bound): for every well-formed VCD document (header blocks in any order, '
+         'any scope nesting, shared/adversarial id codes, any widths, $dumpvars/comments, changes before the first timestamp, repeated changes) '
+         'and every whitespace layout, the parser model yields the declared names/scopes in order, the #-timestamps as indices, each signal column = '
+         'last value assigned to its id code at or before each timestamp (x before any), declared widths; value_at_index: integer iff binary. '
+         'Tie to code: extracted parser vs Wal.load observations on generated documents + independent denotation oracle.',
+    design='DESIGN.md §6 C01',
+    technique='Coq proof (parser inverts renderer, refinement to document reading) + differential correspondence + denotation oracle'),
+ 'C18': dict(
+    text='Theorems (Coq): time cell with 0..9 fractional digits -> integer ns exactly, for numerals of any length (csv_time); decimal value inverts the numeral printer. '
+         'PARTIAL: the table walk (column order, time column position, header normalisation) is decided by the correspondence check '
+         '(extracted csv_parse vs Wal.load on generated tables) and the independent denotation oracle, not by a theorem.',
+    design='DESIGN.md §6 C18',
+    technique='Coq proof of the ns conversion + differential correspondence (extracted CSV parser) + denotation oracle'),
  'C09': dict(
     text='Theorems (Coq, all widths/arity, no bound): bit/slice = floor(x/2^l) mod 2^(h-l+1), adjacent slices reassemble, '
          'n-ary + - * mod ** comparisons and bor/band/bxor of the evaluator compute the Z operations on whatever the operands '
